@@ -5,7 +5,9 @@ from . import core
 from .core import cq_bool, cq_list, cq_nat, cq_pos
 
 THEOREMS = ["C17_aliases_closure", "C17_canonical_consistent", "C17_invariants", "C17_legal_example",
-            "C17_history_invariants", "C17_remove", "C17_copy_independent", "C17_copy_equal"]
+            "C17_history_invariants", "C17_remove", "C17_copy_independent", "C17_copy_equal",
+            "C17_heap_refines", "C17_heap_same_length", "C17_heap_sharing", "C17_heap_copy_fresh",
+            "C17_shallow_copy_refuted", "C17_heap_example"]
 
 
 def tog(v):
